@@ -18,6 +18,7 @@ EXPLANATION = (
     "by its compressed form and cleared on decode; the byte reader underneath returns exactly the requested bytes (shared with C17). "
     'Also decided: the encoder checks annotation id width and value type before packing; recv_stub reads and validates the prefix first. '
     "arbitrary byte strings as a whole."
+    'Also decided (round 9): Header packing through pack_into is read as a pack site and must target memory of the message itself, not a module-level buffer; a precompiled struct.Struct is read as its format. '
     "Not decided: zlib round trip, all fragmentations (C17), acceptance of "
 )
 
